@@ -975,6 +975,8 @@ class Session(object):
             ev2 = ref.Evaluator(view.prog, budget=REF_BUDGET,
                                 overrides={g: row_dicts(view.ev, g, trows)})
             for q in list(preds) + list(others):
+                if q == g:
+                    continue        # g requested itself: printed, not written
                 if norm(common.expected_rows(ev2, view.prog, q)) != norm(view.exp[q]):
                     return False
         return True
@@ -1085,9 +1087,11 @@ class Session(object):
             for g in v.gdeps(p):
                 if g not in written:
                     written.append(g)
+        # (the entry of a requested predicate in its own export map is its final SELECT,
+        # not a CREATE TABLE: it does not count as materialised)
         self.skip_if_dead_dependency(view, preds, written,
-                                     set().union(*[set(e.table_to_export_map)
-                                                   for e in exs]))
+                                     set().union(*[set(e.table_to_export_map) - {q}
+                                                   for e, q in zip(exs, preds)]))
 
         def execute():
             self.labels.add('step:run_many')
